@@ -61,4 +61,11 @@ theorem pktUnmarshal_wire (p : Packet) (hwf : Pred.C01.wfP p = true) (r : Packet
 def dropHidden (p : Packet) : Packet :=
   if p.header.extension then p else { p with header := { p.header with exts := [] } }
 
+/-- round trip on one packet, as a Bool -/
+def rt (p : Packet) : Bool :=
+  match pktMarshal p with
+  | .ok bs => (pktUnmarshal {} bs).map Pred.C01.canonP == .ok (Pred.C01.canonP p)
+  | _ => false
+
+
 end Rtp.Proofs.PacketRt
